@@ -11,7 +11,9 @@ every run is made with is_iteration_history=True and
         <x0 - x, z - x>  <=  gap + slack ,   gap = <p_K, y_K - x_K>  (exact rational arithmetic on the recorded floats);
   * consequences are evaluated: variational inequality against random physical competitors, gap / infeasibility bounds
     against the stopping threshold, agreement of both orders and both routines within the proved bound
-    (C05_two_runs_agree), fixed points, returned point == last history x.
+    (C05_two_runs_agree), fixed points, returned point == last history x, argument / receiver left unchanged.
+Sensitivity was established in round 2 by 41 seeded changes of the anchored loop (docs/reports/C05.md): 40 reported, the
+remaining one (correction term dropped on the equality side only) is behaviour-preserving.
 Convergence / termination within max_iteration is NOT claimed: an out-of-fuel run is a distinct, labelled outcome whose
 bounds are evaluated with the error value actually reached."""
 import io, contextlib, math, random
